@@ -18,8 +18,6 @@ type updateContext struct {
 	leaderIndex *uint64
 	// storedLeaderIndex caches the leader index persisted before this update started.
 	storedLeaderIndex *uint64
-	// replicatedUpTo is the leader index the table was at before the sequence being handled.
-	replicatedUpTo uint64
 }
 
 // currentLeaderIndex returns the leader index the table is at, including the not yet committed part of the update.
@@ -102,7 +100,11 @@ func parseCommand(c *updateContext, entry sm.Entry) (command, error) {
 				}
 				return commandDummy{}, nil
 			}
-			c.replicatedUpTo = current
+			// The head of the sequence may repeat what an earlier (indeterminate) proposal has applied. Only the
+			// proposal itself is trimmed: the commands of a nested sequence carry the indices of another log.
+			for len(cmd.Sequence) > 0 && cmd.Sequence[0].LeaderIndex != nil && *cmd.Sequence[0].LeaderIndex <= current {
+				cmd.Sequence = cmd.Sequence[1:]
+			}
 		}
 		c.leaderIndex = cmd.LeaderIndex
 	}
